@@ -489,8 +489,9 @@ class EngineA:
         if kind == "bad_subs_count":
             p = g.randint(2, 4)
             rows = set()
+            grow = g.random() < 0.3  # subscripts beyond the extent: a rejected call must not have grown the tensor
             for _ in range(p):
-                rows.add(tuple(g.randrange(m.shape[d]) for d in range(N)))
+                rows.add(tuple(g.randrange(m.shape[d] + (1 if grow else 0)) for d in range(N)))
             rows = sorted(rows)
             if len(rows) < 2:
                 return None
@@ -1017,7 +1018,7 @@ class EngineA:
     def _op_bad_subs_count(self, w, step, i, res):
         m = w["m"]
         subs, vals = step["subs"], step["vals"]
-        if any(len(r) != m.order or any(not (0 <= r[d] < m.shape[d]) for d in range(m.order)) for r in subs):
+        if any(len(r) != m.order or any(not (0 <= r[d] <= m.shape[d]) for d in range(m.order)) for r in subs):
             return "skip"
         if len(vals) == len(subs) or len(vals) < 2 or len(subs) < 2:
             return "skip"
